@@ -124,7 +124,9 @@ def make_data(wrapped, extra=None):
     def stop():
         raise StopIteration
 
-    d = {"geni": geni, "stop": stop, "seq": [3, 1, 2, 3], "recs": [{"n": 1, "a": "x"}, {"n": 2, "a": "y"}, {"n": 1, "a": "z"}], "empty": [],
+    from markupsafe import Markup
+    d = {"tup": (4, 5, 6), "pairs": [(1, "a"), (2, "b")], "dct": {"b": 2, "a": 1}, "mku": Markup("<b>m</b>"), "flt": 2.5, "tru": True,
+         "geni": geni, "stop": stop, "seq": [3, 1, 2, 3], "recs": [{"n": 1, "a": "x"}, {"n": 2, "a": "y"}, {"n": 1, "a": "z"}], "empty": [],
          "words": ["b", "a"], "fn": fn, "mk": mk, "n": 5, "s": "str",
          "recs2": [{"n": 1, "a": "x"}, {"a": "Y"}, {"n": 1}, {"a": "y", "n": 2}]}
     if extra:
@@ -146,7 +148,7 @@ def make_data(wrapped, extra=None):
             raise StopIteration
 
         d.update(geni=ageni, stop=astop, fn=afn, mk=amk, seq=AIterable(d["seq"]), recs=AIterable(d["recs"]), empty=AIterable([]), words=AIterable(d["words"]),
-                 recs2=AIterable(d["recs2"]))
+                 recs2=AIterable(d["recs2"]), tup=AIterable(d["tup"]), pairs=AIterable(d["pairs"]))
     return d
 
 
@@ -178,6 +180,22 @@ SNIPS = [
     "{% for x in words %}{% import 'lib5.html' as L5 with context %}{{ L5.seen }}{{ L5.lv() }}{% endfor %}",
     "{% with x = fn(3) %}{% from 'lib5.html' import lv, seen with context %}{{ seen }}{{ lv() }}{% endwith %}",
     "{% macro im(x) %}{% import 'lib5.html' as L5 with context %}{{ L5.seen }}{% endmacro %}{{ im('M') }}{{ im(n) }}",
+    # consumers that got async variants (sort / min / max / batch / reverse) on plain and async iterables
+    "{{ seq|sort }}{{ seq|sort(reverse=true)|first }}", "{{ seq|max }}{{ seq|min }}{{ recs|max(attribute='n') is defined }}",
+    "{{ seq|batch(3)|list }}{{ seq|batch(3, 0)|list|length }}", "{{ seq|reverse|list }}{{ words|reverse|first }}",
+    "{{ recs|sort(attribute='a', reverse=true)|map(attribute='a')|join }}", "{{ seq|select('odd')|sort|batch(2)|list }}",
+    # value kinds: tuple, dict, str, Markup, sync generator (fresh per render), range
+    "{{ tup|list }}{{ tup|first }}{{ tup|sum }}{% for a, b in pairs %}{{ a }}{{ b }}{% endfor %}",
+    "{% for k in dct %}{{ k }}{% endfor %}{{ dct|dictsort }}{{ dct|items|list }}{% for k, v in dct|items %}{{ k }}{{ v }}{% endfor %}",
+    "{{ s|list }}{{ s|first }}{{ s|reverse }}{{ s|unique|join }}{% for c in s %}{{ c }}{{ loop.index }}{% endfor %}",
+    "{{ mku }}{{ mku|upper }}{{ [mku, s]|join('<') }}{{ mku ~ '<' }}", "{{ range(4)|list }}{{ range(4)|sum }}{{ range(4)|batch(2)|list }}",
+    "{{ flt + n }}{{ flt|round }}{{ (n / 2)|int }}{{ tru + 1 }}{{ tru and n }}{{ [tru, 1, 1.0]|unique|list }}",
+    # extensions: do, loop controls (also inside a filtered loop), i18n
+    "{% do fn(1) %}{% set acc2 = [] %}{% do acc2.append(fn(2)) %}{{ acc2 }}",
+    "{% for x in seq %}{% if x == 2 %}{% break %}{% endif %}{{ x }}{% endfor %}",
+    "{% for x in seq if x %}{% if x == 1 %}{% continue %}{% endif %}{{ x }}{{ loop.index }}{% endfor %}",
+    "{% for x in seq if x is odd %}{{ x }}{% if loop.index == 2 %}{% break %}{% endif %}{% else %}E{% endfor %}",
+    "{% trans v=fn(2) %}v is {{ v }}{% endtrans %}{% trans count=seq|list|length %}one{% pluralize %}{{ count }} many{% endtrans %}",
     # |list of a list is a copy (identity and independence)
     "{% set l = seq|list %}{{ l is sameas seq }}{{ l == (seq|list) }}", "{% set l = words|list %}{{ l.pop() }}{{ words|list|length }}",
     # loops over iterables without len(): look-ahead before the length is asked for
@@ -215,12 +233,15 @@ def env_classes(jinja2):
 
 
 UNDEFINED = [None]
+AUTOESCAPE = [False]
 
 
 def make_env(jinja2, cls, templates, is_async):
     loader = jinja2.FunctionLoader(lambda n: (templates[n], n, lambda: True) if n in templates else None)
     kw = {"undefined": UNDEFINED[0]} if UNDEFINED[0] is not None else {}
-    env = cls(loader=loader, enable_async=is_async, **kw)
+    env = cls(loader=loader, enable_async=is_async, autoescape=AUTOESCAPE[0],
+              extensions=["jinja2.ext.do", "jinja2.ext.loopcontrols", "jinja2.ext.i18n"], **kw)
+    env.install_null_translations()
 
     def gfn(x=1):
         return x * 2 if isinstance(x, int) else x
@@ -330,8 +351,11 @@ def k_gen(ctx, jinja2, variants):
         else:
             ts = dict(AUX)
             ts["main.html"] = gen_snip_template(ctx.rng)
-        es = jinja2.Environment(loader=jinja2.DictLoader(ts))
-        ea = jinja2.Environment(loader=jinja2.DictLoader(ts), enable_async=True)
+        kcls = env_classes(jinja2)[(i // 3) % 4][1]
+        exts = ["jinja2.ext.do", "jinja2.ext.loopcontrols", "jinja2.ext.i18n"]
+        es = kcls(loader=jinja2.DictLoader(ts), extensions=exts, autoescape=(i % 5 == 0))
+        ea = kcls(loader=jinja2.DictLoader(ts), extensions=exts, autoescape=(i % 5 == 0), enable_async=True)
+        ctx.count("kgen_" + kcls.__name__)
         for name, src in ts.items():
             try:
                 s = es.compile(src, name, name, raw=True)
@@ -435,6 +459,7 @@ def oracle(ctx, jinja2, loop):
     classes = env_classes(jinja2)
     n = ctx.size(450, 4000)
     UNDEFINED[0] = None
+    AUTOESCAPE[0] = False
     for (src, sig) in PROBES:
         ts = {"main.html": src}
         s = run_entry(make_env(jinja2, jinja2.Environment, ts, False), loop, "main.html", make_data(False), "render")
@@ -457,6 +482,7 @@ def oracle(ctx, jinja2, loop):
         cname, cls = classes[i % 4] if i % 5 else classes[0]
         uname = ["Undefined", "StrictUndefined", "ChainableUndefined", "DebugUndefined"][(i // 4) % 4] if i % 3 else "Undefined"
         UNDEFINED[0] = getattr(jinja2, uname)
+        AUTOESCAPE[0] = (i % 7 == 3) and cname != "NativeEnvironment"
         ref = run_entry(make_env(jinja2, cls, ts, False), loop, "main.html", make_data(False, extra), "render")
         runs = [("sync", "generate", False)]
         runs += [("async", e, False) for e in ("render", "render_async", "generate", "generate_async")]
@@ -472,7 +498,7 @@ def oracle(ctx, jinja2, loop):
                 expect = run_entry(make_env(jinja2, cls, ts, False), loop, "main.html", make_data(False, extra), "generate")
             ctx.case(sample={"template": ts["main.html"][:200], "env": cname, "entry": entry, "wrapped": wrapped, "out": out[:80]}
                      if nontriv and ctx.evaluations % 577 == 0 else None,
-                     key=(ts["main.html"], cname, uname, wrapped) if nontriv else None)
+                     key=(ts["main.html"], cname, uname, AUTOESCAPE[0], wrapped) if nontriv else None)
             ctx.count(f"o_{mode}_{entry}{'_wrapped' if wrapped else ''}")
             if out != expect:
                 cons = culprit_consumer(ts["main.html"])
@@ -481,7 +507,7 @@ def oracle(ctx, jinja2, loop):
                     "StopIteration from a coroutine callable" if ("stop()" in ts["main.html"] and wrapped and out == "exc:RuntimeError") else \
                     f"async generator fed to {cons}" if (cons and out.startswith("exc:")) else \
                     f"async differs: {cname} {entry}{' wrapped data' if wrapped else ''}"
-                ctx.reject({"templates": ts, "env": cname, "undefined": uname, "entry": entry, "mode": mode, "wrapped": wrapped, "expected": expect[:300],
+                ctx.reject({"templates": ts, "env": cname, "undefined": uname, "autoescape": AUTOESCAPE[0], "entry": entry, "mode": mode, "wrapped": wrapped, "expected": expect[:300],
                             "got": out[:300], "tgen_data": repr(extra) if extra else None},
                            f"{mode} {entry} on {cname}{' with async-wrapped data' if wrapped else ''} gives {out[:80]!r}, "
                            f"sync render gives {expect[:80]!r}", sig)
@@ -514,6 +540,7 @@ def replay(ctx, data):
             return run(ctx)
         cls = dict(env_classes(jinja2))[case["env"]]
         UNDEFINED[0] = getattr(jinja2, case.get("undefined", "Undefined"))
+        AUTOESCAPE[0] = case.get("autoescape", False)
         extra = eval(case["tgen_data"]) if case.get("tgen_data") else None  # noqa: written by this harness
         ts = case["templates"]
         ref = run_entry(make_env(jinja2, cls, ts, False), loop, "main.html", make_data(False, extra), "render")
